@@ -15,7 +15,7 @@ func init() {
 			"Exempt (entry, sink) pairs are listed one by one with the reason. Module-account protection of tokenfactory mint/burn/force-transfer is checked as ordinary guards.",
 		NotCovered:  []string{"'leaving all balances and records unchanged' on failure (SDK transaction atomicity is trusted)", "reachability of objects over histories", "wasm hooks"},
 		Assumptions: []string{"message signer = the field parsed by GetSigners (cross-checked structurally)", "call depth <= 7 frames inside osmosis packages"},
-		MinObl:      30,
+		MinObl:      85,
 		Run:         runC20,
 	})
 }
